@@ -34,9 +34,9 @@ ANALYSIS_TIMEOUT_S = 0.5     # the fixed point of nested tuple types (x = (x, 1)
 
 TIERS = {
     # fam_full: exhaustive family sizes; fam_sample: (size, how many sampled); rnd: (count, statement budget)
-    'quick': dict(fam_full=(1, 2), fam_sample=((3, 1100),), clo=(3, 600), rnd=((700, 8), (400, 12)), max_trip=2,
+    'quick': dict(fam_full=(1, 2), fam_sample=((3, 1100),), clo=(3, 500), br=400, rnd=((600, 8), (350, 12)), max_trip=2,
                   max_steps=60, max_dec=8),
-    'thorough': dict(fam_full=(1, 2, 3), fam_sample=((4, 12000),), clo=(3, 0), rnd=((16000, 8), (10000, 12), (4000, 16)),
+    'thorough': dict(fam_full=(1, 2, 3), fam_sample=((4, 12000),), clo=(3, 0), br=0, rnd=((16000, 8), (10000, 12), (4000, 16)),
                      max_trip=2, max_steps=80, max_dec=10),
 }
 
@@ -125,6 +125,8 @@ def programs(tier, seed):
         out += [('fam%d' % n, tr) for tr in (rnd.sample(allp, k) if k < len(allp) else allp)]
     clo = list(L.closure_family(t['clo'][0]))
     out += [('clo', tr) for tr in (rnd.sample(clo, t['clo'][1]) if 0 < t['clo'][1] < len(clo) else clo)]
+    br = list(L.branch_family())
+    out += [('br', tr) for tr in (rnd.sample(br, t['br']) if 0 < t['br'] < len(br) else br)]
     for k, size in t['rnd']:
         base = rnd.randrange(1 << 30)
         out += [('rnd%d' % size, L.random_program(base + i, size)) for i in range(k)]
@@ -475,7 +477,7 @@ def witnesses(batch, small):
         cl = out['claims'][t['pid']]
         o = b['o']
         claim = cl['types'][o - 1]['ts'] if b['clause'] == 'types' else \
-            [c['ts'] for c in cl['closure'][_callee(p, b)] if c['name'] == b['name']][0]
+            [c['ts'] for i in _callee(p, b) for c in cl['closure'][i] if c['name'] == b['name']]
         res[sig] = dict(
             source=out['srcs'][t['pid']], tree=repr(small[sig]), decisions=t['dec'], outcome=t['out'], clause=b['clause'],
             occurrence=L.r_expr(p, o, False) if p['exprs'][o - 1]['kind'] not in ('store', 'stuple', 'param')
@@ -489,7 +491,7 @@ def witnesses(batch, small):
 
 def _callee(p, b):
     nm = p['exprs'][p['exprs'][b['o'] - 1]['args'][0] - 1]['name']
-    return next(i for i, f in enumerate(p['fns']) if f['name'] == nm)
+    return [i for i, f in enumerate(p['fns']) if f['name'] == nm]       # several when the function is redefined
 
 
 WHAT = {
@@ -560,7 +562,7 @@ def run(rep):
     rep.set('closure_claims_exported', nclosure)
     rep.set('monitor_records', sum(counts.values()))
     rep.set('signatures', dict(sorted(counts.items())))
-    vacuity(rep, tables, tier, [t for f, t in tagged if f.startswith('rnd')][:150])
+    vacuity(rep, tables, tier, [t for f, t in tagged if f.startswith('rnd')][:100])
     # witnesses of signatures that are not known findings are shrunk (in the thorough tier: all of them)
     first = {sig: min(v) for sig, v in groups.items()}
     todo = [sig for sig in sorted(groups) if sig not in rep.known_sigs or rep.tier != 'quick']
